@@ -158,6 +158,12 @@ def Ctl.finalize (c : Ctl) : Ctl :=
   if (c.powell && c.live) = true then { c with live := false, nstep := c.nstep + 1, gens := c.nstep }
   else { c with live := false }
 
+/-- `SetGenerationMonitor(monitor, new)`: the old records are prepended unless `new`; the history overrides are
+    reset, so Powell's `generations` falls back to `len(stepmon) - 1` -/
+def Ctl.setStepMon (c : Ctl) (new : Bool) : Ctl :=
+  if new = true then { c with nstep := 0, gens := 0 }
+  else if c.powell = true then { c with gens := c.nstep - 1 } else c
+
 /-- what one `_Step` did to the counters (observed / computed by the algorithm model) -/
 structure Delta where
   dEvals : Nat
